@@ -36,6 +36,10 @@ def belongs(ob):
 
 
 def run(ctx):
+    # proved part (engine A): to_array's fit_dtype call sites hold every value they write (fit_dtype by contract, C19)
+    from ..kvc import callsite
+
+    callsites = callsite.run(ctx, "C01", ["to_array"])
     mon, totals = runner.run_sharded(drive_convert.work, ctx.tier)
     path_cover = {k[len(drive_convert.PATH_PREFIX):]: int(n) for k, n in sorted(mon.calls.items()) if k.startswith(drive_convert.PATH_PREFIX)}
     counting = {k[len(drive_convert.COUNTING_PREFIX):]: int(n) for k, n in sorted(mon.calls.items()) if k.startswith(drive_convert.COUNTING_PREFIX)}
@@ -58,6 +62,7 @@ def run(ctx):
                         "values >= 2^20 reach from_array only where numpy.bincount is bypassed (counts given or a negative value present): "
                         "bincount allocates 8*max bytes, a resource hazard the property does not speak about",
                         "ensures-common-is-mode on from_array is evaluated in the same run but belongs to C15"]
+    ctx.coverage["proved_subobligations"] = callsites
 
 
 def replay(path):
